@@ -13,7 +13,10 @@ CONSTANT MaxArity,
 Arities == 2..MaxArity
 Where == {"entry", "afterdo", "inthunk"}
 Then == {"exit", "match", "alloc", "unpackrest"}
-Programs == {[n |-> n, k |-> k, where |-> w, then |-> t] : n \in Arities, k \in 1..(MaxArity - 1), w \in Where, t \in Then}
+\* "boxed": the first component is +Bx(1) of the single-constructor type `data | +Bx : Int64 end` and the pattern takes it
+\* apart in place, `(+Bx(x1), x2, .., rest)`: an irrefutable constructor pattern NESTED in the product pattern
+First == {"int", "boxed"}
+Programs == {[n |-> n, k |-> k, where |-> w, then |-> t, first |-> f] : n \in Arities, k \in 1..(MaxArity - 1), w \in Where, t \in Then, f \in First}
 \* the rest can only be unpacked again when it is itself a product (at least two components left)
 Valid(p) == p.k < p.n /\ (p.then = "unpackrest" => p.n - p.k >= 2)
 RECURSIVE Sum(_, _)
@@ -48,6 +51,6 @@ Covers == stage = "pick" => \A t \in Then : \E p, q \in {x \in Programs : Valid(
 \* every position of every arity is returned by some program, under every way of building the tuple
 MonCovers == stage = "pick" => \A n \in Arities, j \in 1..MaxArity, b \in MonBuild : j <= n =>
                \E p \in MonPrograms : MonValid(p) /\ p.n = n /\ p.pick = j /\ p.build = b
-Report == stage = "done" => IF Family = "mon" THEN PrintT(<<"REPLAY", ToJson(prog @@ [val |-> MonValue(prog)])>>) ELSE PrintT(<<"REPLAY", ToJson([n |-> prog.n, k |-> prog.k, where |-> prog.where, then |-> prog.then,
+Report == stage = "done" => IF Family = "mon" THEN PrintT(<<"REPLAY", ToJson(prog @@ [val |-> MonValue(prog)])>>) ELSE PrintT(<<"REPLAY", ToJson([n |-> prog.n, k |-> prog.k, where |-> prog.where, then |-> prog.then, first |-> prog.first,
                                                       exit |-> Exit(prog), partial |-> Partial(prog)])>>)
 ================================================================================
